@@ -349,6 +349,17 @@ def gen_streams(ctx):
             m = notif(k)
             text = enc_event(path, typed, se, sd, crlf, etype="endpoint") + enc_event(m, True, True, True, crlf)
             out.append((text, [m], not (se and sd) if typed else not sd, "endpoint+msg"))
+    # once the endpoint is known, an event WITHOUT an event field is a message whatever its payload mentions - a path or URL
+    # with "/mcp" or "/messages/" in a tool result is ordinary content
+    for sd in (True, False):
+        for crlf in (False, True):
+            k += 3
+            ms_ = [{"jsonrpc": "2.0", "method": "notifications/message", "params": {"k": k, "path": "/srv/mcp/tool"}},
+                   {"jsonrpc": "2.0", "id": f"x{k + 1}", "result": {"k": k + 1, "u": "http://host/messages/?id=1", "p": "/mcp"}},
+                   {"jsonrpc": "2.0", "method": "notifications/message", "params": {"k": k + 2}}]
+            text = enc_event("/messages/?session_id=abc", True, True, True, crlf, etype="endpoint") \
+                + "".join(enc_event(m, False, True, sd, crlf) for m in ms_)
+            out.append((text, ms_, not sd, "endpoint+untyped-msgs-mentioning-endpoint-like-paths"))
     return out
 
 
@@ -827,6 +838,21 @@ def req_cases(ctx):
                       "evs": [("send", ra), ("post", 202, ("notjson",)), ("timeout",), ("send", rb), ("post", 202, ("notjson",)),
                               ("sse", absmsg(a1)), ("sse", absmsg(a2)), ("wake",)],
                       "durs": [0.2 + T + 0.1, 0.9], "unrelated": []})
+    # a LONG connection: N requests each answered by the transport itself (the POST fails with 500), then the real answers to the
+    # two oldest of them arrive late, while one more request waits for its own answer
+    for N in (40, 300):
+        rids = [f"q{i}" for i in range(1, N + 1)]
+        last = "q-last"
+        a1, a2, al = res(rids[0], tok()), res(rids[1], tok()), res(last, tok())
+        posts = [{"delay": 0.05, "outcome": ["status", 500, b"boom", "text/plain"], "events": []} for _ in rids]
+        posts.append({"delay": 0.1, "outcome": ["status", 202, b""],
+                      "events": [[0.3, enc_event(a1).encode()], [0.35, enc_event(a2).encode()], [0.5, enc_event(al).encode()]]})
+        evs = []
+        for r in rids:
+            evs += [("send", r), ("post", 500, body_class(b"boom"))]
+        evs += [("send", last), ("post", 202, ("notjson",)), ("sse", absmsg(a1)), ("sse", absmsg(a2)), ("sse", absmsg(al)), ("wake",)]
+        cases.append({"label": f"seq:long-connection-{N}-failed-then-late-answers", "rids": rids + [last], "variant": {"n": N}, "T": T,
+                      "posts": posts, "evs": evs, "durs": [0.1] * N + [0.9], "unrelated": []})
     for code in (200, 202, 500):
         cases.append({"label": "notification", "rids": [None], "variant": {"code": code}, "T": T,
                       "posts": [{"delay": 0.1, "outcome": ["status", code, b"{}"], "events": []}],
